@@ -8,6 +8,7 @@
 #include "tools_common.h"
 
 static char g_case[300];
+static int  g_thorough;
 
 /* ================================================================== (a) + (b) hdiff */
 typedef struct {
@@ -143,6 +144,30 @@ case_hdiff(long idx, void *ctx)
             }
             mc_count(r1 ? "mutations_flagged" : "mutations_not_flagged(optional classes)", 1);
             mc_outcome(mc_hash_i(mc_hash_i(MC_H0, c->m.kind), r1));
+            /* thorough: the restricted comparison modes must still see a difference in their own class */
+            if (g_thorough && c->must && c->m.kind >= 1 && c->m.kind <= 4) {
+                static const char *MODE[] = {"", "-d", "-s", "-g", "-D"};
+                char *a3[] = {(char *)MODE[c->m.kind], "a.hdf", "b.hdf", NULL}, *o3 = NULL;
+                int   r3 = tc_run("hdiff", a3, &o3);
+                if (!tc_tool_crashed("hdiff", r3, o3, g_case) && r3 == 0) {
+                    snprintf(sig, sizeof sig, "hdiff:difference-not-reported:%s:mode%s", CLS[c->m.kind], MODE[c->m.kind]);
+                    mc_violation(sig, "%s: hdiff %s exits 0 although the files differ in exactly that class", g_case, MODE[c->m.kind]);
+                }
+                free(o3);
+                /* and the other restricted modes must not report it */
+                for (int k = 1; k <= 4; k++) {
+                    if (k == c->m.kind || (k == 2 && c->m.kind == 1) || (k == 1 && c->m.kind == 2))
+                        continue;
+                    char *a4[] = {(char *)MODE[k], "a.hdf", "b.hdf", NULL}, *o4 = NULL;
+                    int   r4 = tc_run("hdiff", a4, &o4);
+                    if (!tc_tool_crashed("hdiff", r4, o4, g_case) && r4 != 0) {
+                        snprintf(sig, sizeof sig, "hdiff:difference-reported-in-unrelated-mode:%s:mode%s", CLS[c->m.kind], MODE[k]);
+                        mc_violation(sig, "%s: hdiff %s exits %d although the only difference is in another class", g_case, MODE[k], r4);
+                    }
+                    free(o4);
+                }
+                mc_count("restricted_mode_runs", 4);
+            }
         }
         free(out2);
     }
@@ -522,7 +547,7 @@ case_import(long idx, void *ctx)
 int
 C19_main(const char *tier, const char *replay)
 {
-    (void)tier;
+    g_thorough = strcmp(tier, "thorough") == 0;
     build_mutations();
     if (replay) {
         int   cfg[32], ncfg, nops;
